@@ -342,6 +342,26 @@ pub fn build_answer(spec: &AnsSpec, q: &(Name, u16, u16), serial: u32, id: u16) 
                 .collect(),
         )
     };
+    /* label and name lengths at their limits: a twentieth of the replies stretch the labels they
+     * add in front of the question's suffix to 62-63 octets, as far as the name (with the
+     * serial label still to come) stays within 255 octets */
+    let stretch = Rng::new(spec.seed, "label-length").chance(0.05);
+    let name_pool = |r: &mut Rng| -> Name {
+        let Name(mut labels) = name_pool(r);
+        if stretch {
+            for i in 0..labels.len() {
+                if labels[i].first() == Some(&b'n') && labels[i].len() <= 3 {
+                    let total: usize = labels.iter().map(|l| l.len() + 1).sum::<usize>() + 1 + 12;
+                    let room = 255usize.saturating_sub(total);
+                    let want = if r.chance(0.5) { 63 } else { 62 };
+                    let grow = (want - labels[i].len()).min(room);
+                    let fill = b'a' + (i as u8 % 26);
+                    labels[i].extend(std::iter::repeat(fill).take(grow));
+                }
+            }
+        }
+        Name(labels)
+    };
     let with_serial = |n: Name| -> Name {
         let mut l = vec![ser_label.clone()];
         l.extend(n.0);
@@ -1388,6 +1408,36 @@ pub fn generate_flood(seed: u64, cookie: bool) -> PlanB {
             /* a wall-clock step while the source is quiet */
             p.clock_jumps.push((t - 300_000, *r.pick(&[-3i64, 5, 120])));
         }
+        {
+            /* long after everything else, a permitted source that never asked before draws a
+             * REFUSED from its upstream that carries a record (300-440 octets on the wire): the
+             * limiter charges relayed refusals by size too, and a full bucket covers this one */
+            let mut k = Rng::new(seed, "plan-b-flood-relayed-refusal");
+            if k.chance(0.35) {
+                let z = IpAddr::V4(Ipv4Addr::from(u32::from(lan) + k.range(10, 200) as u32));
+                let mut q = mk(&mut k, t + 1_200_000, z, 999, lan, "relayed-refusal.example".into(), T_A, None);
+                q.ans = AnsSpec { seed: k.next_u64(), rcode: 5, counts: [1, 0, 0], ttl_mode: 1, fixed_ttl: 30, pad: 0, compress: true, share_names: false, with_opt: true, steer_total: Some(k.range(300, 440) as usize) };
+                q.quiet_probe = true;
+                p.queries.push(q);
+            }
+        }
+        {
+            /* the quiet-source probes sometimes draw the largest REFUSED erbium can produce (a
+             * question of 255 octets echoed back, NSID, a fresh server cookie, the extended
+             * error text): the limiter charges by reply size, and a full bucket must cover
+             * even that */
+            let mut k = Rng::new(seed, "plan-b-flood-bigprobe");
+            if k.chance(0.35) {
+                for q in p.queries.iter_mut().filter(|q| q.quiet_probe && q.ans.rcode != 5) {
+                    let tail = *k.pick(&[61usize, 60, 53, 40]);
+                    let l = |n: usize, c: char| std::iter::repeat(c).take(n).collect::<String>();
+                    q.qname = Name::parse(&format!("{}.{}.{}.{}", l(63, 'a'), l(63, 'b'), l(63, 'c'), l(tail, 'd')));
+                    let mut cc = [0u8; 8];
+                    k.fill(&mut cc);
+                    q.edns = Some(EdnsSpec { size: 1232, do_bit: k.chance(0.5), cookie: CookieSpec::ClientOnly, client_cookie: cc, nsid: true, extra: vec![] });
+                }
+            }
+        }
     } else {
         /* a permitted client learns a server cookie, then asks for things that are refused
          * for another reason (ANY) */
@@ -1409,7 +1459,10 @@ pub fn generate_flood(seed: u64, cookie: bool) -> PlanB {
         if variant == 5 {
             /* cookie-bearing traffic at +37 h and +74 h forces two key rotations */
             for (i, h) in [37u64, 74].iter().enumerate() {
-                p.queries.push(mk(&mut r, h * 3_600_000, c, next_port(), lan, format!("rotate{}.example", i), T_A, ed(CookieSpec::ClientOnly, cc)));
+                let mut q = mk(&mut r, h * 3_600_000, c, next_port(), lan, format!("rotate{}.example", i), T_A, ed(CookieSpec::ClientOnly, cc));
+                /* the service must still answer after a day and a half of uptime (C05) */
+                q.liveness_probe = true;
+                p.queries.push(q);
             }
             t = 75 * 3_600_000;
         }
